@@ -51,3 +51,6 @@ func (r *RNG) Perm(n int) []int {
 	}
 	return p
 }
+
+// Pick2 picks one of the given ints.
+func (r *RNG) Pick2(xs ...int) int { return xs[r.Intn(len(xs))] }
